@@ -206,7 +206,10 @@ def check_displacement(ref, c, velocity, separation, budget, result, direction, 
         return None
     distance = result * speed
     energy, scale = uphill_energy(ref, c, sx, rho2, distance)
-    if math.isinf(energy) or abs(energy - budget) > 1e-6 * budget + 1e-9 * max(scale, 1e-300):
+    # the Lennard-Jones inversion goes through 1 + U/k: far out in the tail (|U| << k) double precision resolves the
+    # energy only to about 1e-16 k, whatever the budget
+    unit = abs(getattr(ref, "k", 0.0)) if type(ref).__name__ == "LennardJones" else 0.0
+    if math.isinf(energy) or abs(energy - budget) > 1e-6 * budget + 1e-9 * max(scale, 1e-300) + 1e-13 * unit:
         return "accumulated_uphill_energy_differs_from_budget", {"accumulated": energy, "budget": budget,
                                                                   "distance": distance, "scale": scale}
     return None
